@@ -8,14 +8,19 @@ See Also:
 
 from __future__ import annotations
 
+from binascii import b2a_base64
+
 __all__ = ['modutf7_encode', 'modutf7_decode']
 
 
 def _modified_b64encode(src: str) -> bytes:
     # Inspired by Twisted Python's implementation:
     #   https://twistedmatrix.com/trac/browser/trunk/LICENSE
-    src_utf7 = src.encode('utf-7')
-    return src_utf7[1:-1].replace(b'/', b',')
+    # Python's utf-7 codec leaves some characters (e.g. CR, LF, TAB) and
+    # lone surrogates unencoded, so base64 the UTF-16 form directly.
+    src_utf16 = src.encode('utf-16-be', 'surrogatepass')
+    src_b64 = b2a_base64(src_utf16, newline=False)
+    return src_b64.rstrip(b'=').replace(b'/', b',')
 
 
 def _modified_b64decode(src: bytes) -> str:
@@ -51,7 +56,11 @@ def modutf7_encode(data: str) -> bytes:
                 encoded = _modified_b64encode(to_encode)
                 ret.append(0x26)
                 ret.extend(encoded)
-                ret.extend((0x2d, charpoint))
+                ret.append(0x2d)
+                if charpoint == 0x26:
+                    ret.extend(b'&-')
+                else:
+                    ret.append(charpoint)
                 is_usascii = True
     if not is_usascii:
         to_encode = data[encode_start:]
